@@ -14,6 +14,7 @@ import collections
 import itertools as it
 import locale
 import re
+from decimal import Decimal, ROUND_HALF_UP
 from enum import Enum
 from typing import Iterable, List
 
@@ -298,20 +299,23 @@ class TextFormat:
             return ''.join(t.token for t in tokenized_format.tokens)
 
     def _number_converter(self, number_value, tokenized: Tokenized):
-        number_value *= 100 ** tokenized.percents
         number_format = ''.join(
             t.token for t in tokenized.tokens if t.type == self.TokenType.NUMBER)
         thousands = self.thousands_format if tokenized.thousands else ''
 
+        decimals = 0
         if tokenized.decimal:
             left_num_format, right_num_format = number_format.split('.', 1)
             decimals = len(right_num_format)
-            left_side, right_side = f'{number_value:#{thousands}.{decimals}f}'.split('.')
-            right_side = right_side.rstrip('0')
-        else:
-            left_side = f'{int(round(number_value, 0)):{thousands}}'
-            right_side = None
-        left_side = left_side.lstrip('0')
+
+        # excel rounds the decimal digits of the number half away from zero
+        if not isinstance(number_value, int):
+            number_value = Decimal(repr(number_value))
+        number_value = int(Decimal(number_value).scaleb(decimals + 2 * tokenized.percents).quantize(
+            Decimal(1), rounding=ROUND_HALF_UP))
+        left_side, right_side = divmod(number_value, 10 ** decimals)
+        left_side = f'{left_side:{thousands}}'.lstrip('0')
+        right_side = f'{right_side:0{decimals}d}'.rstrip('0') if tokenized.decimal else None
 
         tokens_iter = iter(tokenized.tokens)
         left_side_tokens = tuple(it.takewhile(lambda t: t.token != '.', tokens_iter))
